@@ -610,22 +610,30 @@ theorem shared_cell_present :
     Gen.sharedCells.contains ("blocker.rs", "Blocker", "regex_manager", "std::sync::Mutex<RegexManager>") = true := by
   decide
 
-def borrowers : List String := (Gen.lockFns.filter (fun f => f.2.2.1 ≥ 1)).map (·.1)
+/-- the methods that touch the cell directly (found by the translator: they mention `self.regex_manager`) -/
+def isAccessor (n : String) : Bool := Gen.lockAccessors.contains n
+
+/-- the methods that take the lock: the accessors and everything that calls one -/
+def borrowers : List String := (Gen.lockFns.filter (fun f => f.2.2.1 ≥ 1 || isAccessor f.1)).map (·.1)
 
 def fnOk (f : String × String × Nat × Nat × Nat × List String) : Bool :=
-  f.1 == "borrow_regex_manager" ||
-  (f.2.2.2.2.1 == 0 && f.2.2.1 ≤ 1
-    -- a `&self` query binds the guard to a local for its whole body
-    && (f.2.1 != "&self" || f.2.2.2.1 == f.2.2.1)
-    -- and never calls another method that takes the lock (no re-entrancy, no lock ordering)
-    && (f.2.2.1 == 0 || f.2.2.2.2.2.all (fun c => c == "borrow_regex_manager" || !borrowers.contains c)))
+  if isAccessor f.1 then
+    -- an accessor takes the lock and calls nothing else that takes it
+    f.2.2.2.2.2.all (fun c => !borrowers.contains c)
+  else
+    (f.2.2.2.2.1 == 0 && f.2.2.1 ≤ 1
+      -- a `&self` query binds the guard to a local for its whole body
+      && (f.2.1 != "&self" || f.2.2.2.1 == f.2.2.1)
+      -- and never calls another method that takes the lock (no re-entrancy, no lock ordering)
+      && (f.2.2.1 == 0 || f.2.2.2.2.2.all (fun c => isAccessor c || !borrowers.contains c)))
 
-/-- **Lock discipline of `impl Blocker`**: only `borrow_regex_manager` touches the cell; every method
+/-- **Lock discipline of `impl Blocker`**: only the accessor(s) touch the cell; every other method
     takes the lock at most once, `&self` methods keep the guard in a local for the whole query, and no
-    method calls another locking method while it may hold the guard. -/
+    method calls another locking method while it may hold the guard. (Names are not fixed: the
+    accessors are whatever methods mention the cell.) -/
 theorem lock_discipline : Gen.lockFns.all fnOk = true := by decide
 
-theorem lock_table_nonempty : borrowers.length ≥ 3 := by decide
+theorem lock_table_nonempty : Gen.lockAccessors ≠ [] ∧ borrowers.length ≥ 3 := by decide
 
 /-! ### the statements are not vacuous: two threads, one blocked while the other holds the lock -/
 
